@@ -115,7 +115,7 @@ def main(tier, replay):
             # confirm every failing history by a concrete replay (the generator is deterministic per
             # (seed, history)): a failure that does not reproduce is a timing effect of this run
             # (concurrent batch-get workers / asynchronous lock resolution under machine load); it is
-            # counted in the evidence, not reported.  F08b-class failures are deterministic: not re-run.
+            # counted in the evidence, not reported.
             confirmed, unconfirmed = {}, 0
             if not case:
                 for pf in pfails:
